@@ -874,6 +874,10 @@ fn parse_remb_body(body: &[u8]) -> RtpResult<RemoteBitrateEstimate> {
     let mantissa = ((u32::from(body[13] & 0x03) << 16)
         | (u32::from(body[14]) << 8)
         | u32::from(body[15])) as u64;
+    // mantissa * 2^exponent must fit the u64 field; `<<` would silently drop the high bits
+    if u32::from(exponent) > mantissa.leading_zeros() {
+        return Err(RtpError::InvalidRtcp("REMB bitrate exceeds 64 bits"));
+    }
     let bitrate_bps = mantissa << exponent;
     let mut ssrcs = Vec::with_capacity(num_ssrc);
     let mut offset = 16;
